@@ -897,4 +897,132 @@ example : ¬ ExistsElsewhere fh "fg" "a" := by
     · cases hget; simp at hm
     · cases hget
 
+/-! ### Where deferred delivery differs from immediate delivery -/
+
+/-- FULL statement (the "if" direction of the deletion clause, read at the release): a name that a
+held block deleted or renamed away, that no layer has at the release and that was listed at most
+once, is not in the order after the release. -/
+def HeldGoneLeaves (f : Font) (L : String) (block : List Op) (n : Name) : Prop :=
+  (∃ nt ∈ (blockRun (layerGlyphs f L, []) block).2, nt.removes n = true) →
+  anyLayerHas (heldRun f L block) n = false →
+  (glyphOrder f).count n ≤ 1 →
+  n ∉ glyphOrder (heldRun f L block)
+
+instance (f : Font) (L : String) (block : List Op) (n : Name) : Decidable (HeldGoneLeaves f L block n) := by
+  unfold HeldGoneLeaves; exact inferInstance
+
+/-- Known finding F116 (genuine defect, recorded): it FAILS.  Delete `b`, create `b` again, delete it
+again under one hold: the second `Layer.GlyphDeleted(b)` equals the first and is not queued again, so
+the queue is `[GlyphDeleted b, GlyphAdded b]`; at the release no layer has `b`: the first removes the
+name and the second appends it.  `b` ends up in the order although the glyph was deleted and no layer
+has it (without the hold the order would be `["a", "c"]`). -/
+theorem held_gone_leaves_violated :
+    ¬ HeldGoneLeaves fh "fg" [.delGlyph "fg" "b", .newGlyph "fg" "b", .delGlyph "fg" "b"] "b" := by decide
+
+example : glyphOrder (heldRun fh "fg" [.delGlyph "fg" "b", .newGlyph "fg" "b", .delGlyph "fg" "b"]) =
+    ["a", "c", "b"] := by decide
+example : glyphOrder (run fh [.delGlyph "fg" "b", .newGlyph "fg" "b", .delGlyph "fg" "b"]) = ["a", "c"] := by
+  decide
+-- the same through renaming there and back, and with a name that never was in the order
+example : glyphOrder (heldRun fh "fg" [.rename "fg" "a" "x", .rename "fg" "x" "a", .rename "fg" "a" "x"]) =
+    ["x", "b", "c", "a"] := by decide
+example : glyphOrder (heldRun fh "fg" [.newGlyph "fg" "q", .delGlyph "fg" "q", .newGlyph "fg" "q",
+    .delGlyph "fg" "q"]) = ["a", "b", "c"] := by decide
+example : glyphOrder (heldRun { fh with lib := some ["a", "c"] } "fg"
+    [.delGlyph "fg" "b", .newGlyph "fg" "b", .delGlyph "fg" "b"]) = ["a", "c", "b"] := by decide
+
+/-- What is proved of the code as it is: the statement holds whenever the block posts no notification
+twice (nothing is coalesced) — then the LAST thing the queue says about the name is that it is gone,
+and nothing after that brings it back.  For every well-formed font, calm layer, block and name. -/
+theorem held_gone_leaves_partial (f : Font) (hw : WF f) (L : String) (l : Layer)
+    (hget : AL.get? f.layers L = some l) (hc : l.calm) (block : List Op)
+    (hb : ∀ op ∈ block, op.onLayer L = true)
+    (hnd : (blockRun (l.glyphs, []) block).2.Nodup) (n : Name) :
+    HeldGoneLeaves f L block n := by
+  intro hrem hgone hcount
+  have hlg : layerGlyphs f L = l.glyphs := by simp [layerGlyphs, hget]
+  rw [hlg] at hrem
+  obtain ⟨_, h2, h3, _⟩ := held_block_order f hw L l hget hc block hb
+  have hwH : WF (heldRun f L block) := wf_run hw _
+  rw [h3, coalesce_of_nodup (by simpa using hnd)]
+  simp only [List.nil_append]
+  refine not_mem_deliverAll_gone hgone hcount ?_
+  -- the last word of the posted notifications about `n`
+  have hsr := saysRight_run (saysRight_start l.glyphs) block
+  cases hls : lastSays (blockRun (l.glyphs, []) block).2 n with
+  | none =>
+    obtain ⟨nt, hnt, hr⟩ := hrem
+    have := (lastSays_none_iff.mp hls nt hnt).2
+    rw [hr] at this; cases this
+  | some b =>
+    cases b with
+    | false => rfl
+    | true =>
+      exfalso
+      have hin : n ∈ (blockRun (l.glyphs, []) block).1 := (hsr n true hls).mpr rfl
+      have : Exists (heldRun f L block) n := by
+        rw [exists_congr h2, exists_setLayer]; exact Or.inr hin
+      rw [← anyLayerHas_iff hwH.names, hgone] at this
+      cases this
+
+example : (blockRun (["a", "b", "c"], []) [.delGlyph "fg" "b", .newGlyph "fg" "q", .rename "fg" "a" "b"]).2.Nodup := by
+  decide
+example : glyphOrder (heldRun fh "fg" [.delGlyph "fg" "b", .newGlyph "fg" "q", .rename "fg" "a" "b"]) =
+    ["b", "c", "q"] := by decide
+
+/-- Deferred evaluation makes the order DIFFER from the immediate one without contradicting the
+property (each outcome is what the property states for the state its callbacks saw):
+* delete the only `a`, create `a` again — immediately the name leaves and is appended at the end;
+  under a hold `GlyphDeleted(a)` is delivered when `a` exists again, so the name keeps its place;
+* rename `a` to `x`, create `a` again — immediately `x` takes `a`'s place and `a` is appended; under a
+  hold the old name "must stay" at delivery time, so `a` keeps its place and `x` is appended;
+* delete `a`, rename `b` to `a` (order `b, c, a`) — immediately `a` leaves and then takes `b`'s place;
+  under a hold `a` never leaves, keeps the place it has, and `b` is removed. -/
+theorem deferred_differs_from_immediate :
+    (glyphOrder (heldRun fh "fg" [.delGlyph "fg" "a", .newGlyph "fg" "a"]) = ["a", "b", "c"] ∧
+     glyphOrder (run fh [.delGlyph "fg" "a", .newGlyph "fg" "a"]) = ["b", "c", "a"]) ∧
+    (glyphOrder (heldRun fh "fg" [.rename "fg" "a" "x", .newGlyph "fg" "a"]) = ["a", "b", "c", "x"] ∧
+     glyphOrder (run fh [.rename "fg" "a" "x", .newGlyph "fg" "a"]) = ["x", "b", "c", "a"]) ∧
+    (glyphOrder (heldRun { fh with lib := some ["b", "c", "a"] } "fg" [.delGlyph "fg" "a", .rename "fg" "b" "a"]) =
+       ["c", "a"] ∧
+     glyphOrder (run { fh with lib := some ["b", "c", "a"] } [.delGlyph "fg" "a", .rename "fg" "b" "a"]) =
+       ["a", "c"]) := by decide
+
+/-- `disableNotifications()` … `enableNotifications()` around a block: the font is told nothing, at
+any time — the order after the block is the order before it, whatever was created, deleted or
+renamed (this is what disabling asks for; the property's sentences are not demanded of such a
+block), the layer's names follow the operations and the layer is calm again. -/
+theorem disabled_block_keeps_order (f : Font) (L : String) (l : Layer)
+    (hget : AL.get? f.layers L = some l) (hc : l.calm) (block : List Op)
+    (hb : ∀ op ∈ block, op.onLayer L = true) :
+    disabledRun f L block = setLayer f L { l with glyphs := (blockRun (l.glyphs, []) block).1 } ∧
+    glyphOrder (disabledRun f L block) = glyphOrder f := by
+  obtain ⟨hh, hd, hq⟩ := hc
+  obtain ⟨gl, ob, he, qu, di⟩ := l
+  simp only at hh hd hq
+  subst hh; subst hd; subst hq
+  have e1 : (step f (.disableLayer L)).1 =
+      setLayer f L { glyphs := gl, observed := ob, held := 0, queue := [], disabled := 1 } := by
+    simp only [step, disableLayer, hget]
+  have hget1 : AL.get? (setLayer f L { glyphs := gl, observed := ob, held := 0, queue := [], disabled := 1 }).layers L =
+      some { glyphs := gl, observed := ob, held := 0, queue := [], disabled := 1 } := by
+    rw [get?_setLayer, if_pos rfl]
+  have hrun := run_disabledBlock hget1 (by simp) rfl rfl block hb gl
+  simp only [setLayer_setLayer] at hrun
+  have e : disabledRun f L block =
+      setLayer f L { glyphs := (blockRun (gl, []) block).1, observed := ob, held := 0, queue := [], disabled := 0 } := by
+    unfold disabledRun
+    rw [show [Op.disableLayer L] ++ block ++ [Op.enableLayer L] = (Op.disableLayer L :: block) ++ [Op.enableLayer L] by simp,
+      run_append]
+    simp only [run]
+    rw [e1, hrun]
+    simp only [step, enableLayer]
+    rw [get?_setLayer, if_pos rfl]
+    simp only [Nat.one_ne_zero, if_false, setLayer_setLayer]
+  exact ⟨e, by rw [e]; rfl⟩
+
+example : glyphOrder (disabledRun fh "fg" [.delGlyph "fg" "a", .newGlyph "fg" "z"]) = ["a", "b", "c"] := by decide
+example : layerGlyphs (disabledRun fh "fg" [.delGlyph "fg" "a", .newGlyph "fg" "z"]) "fg" = ["b", "c", "z"] := by
+  decide
+
 end DefconModel.Props.C12
